@@ -407,6 +407,9 @@ def predicates(ctx: Ctx) -> None:
             ctx.stats.case({"stream": "predicate", "scheme": scheme, "n": nn, "fixed": fixed}, True)
             ctx.stats.branch(f"pred:{scheme}")
             if r:
+                if not any(f.key == r[0] for f in ctx.failures):
+                    d = {"spec": spec}
+                    r = c18.shrunk(d, r, lambda dd: pred_select(dd["spec"], excl, size, scheme, fixed, bc, ts_above))
                 ctx.fail(*r)
 
 
